@@ -63,6 +63,16 @@ def gen(r, S=None, saa=False):
     # box written for component j is loosened by 2 - the oracles keep using ex['hi']
     for ex in d['exps']:
         ex['xpiece'] = int(r.integers(0, nz)) if r.random() < 0.3 else None
+    # a bystander decision declared BEFORE y: event-wise (own partition) and affinely adaptive, pinned in a narrow band around
+    # gw.z (w >= gw.z + 1, w <= gw.z + 2) and absent from the objective and from every other constraint - the optimum does not
+    # depend on it, unless the rule coefficients of different decisions are mixed up
+    d['w'] = None
+    if not saa and d['y_affine'] and r.random() < 0.45:
+        labw = r.integers(0, 2, S)
+        gw = rint(r, -2, 2, nz)
+        if not np.any(gw):
+            gw[0] = 2.0
+        d['w'] = {'events': [[int(s) for s in range(S) if labw[s] == 1]] if 0 < labw.sum() < S else [], 'gw': gw.tolist()}
     # a piecewise (non-expectation) robust constraint with its OWN ambiguity set (wider supports):
     #   (maxof(y - a1, g3.z - a2) <= cap).forall(fs_wide)   <=>   y_s(z) <= cap + a1 on the widened support of every scenario
     d['pwcon'] = None
@@ -97,11 +107,16 @@ def build(d, presolve=None):
     scen = d['labels'] or d['int_labels'] or S
     m = dro.Model(scen)
     lab = (lambda s: (d['labels'] or d['int_labels'])[s]) if (d['labels'] or d['int_labels']) else (lambda s: s)
+    wv = m.dvar() if d.get('w') else None
     if d['x_after_y']:
         y = m.dvar(); x = m.dvar(nd)
     else:
         x = m.dvar(nd); y = m.dvar()
     z = m.rvar(nz)
+    if wv is not None:
+        for e in d['w']['events']:
+            wv.adapt([lab(s) for s in e] if len(e) > 1 else lab(e[0]))
+        wv.adapt(z)
 
     def declare_adaptation():
         for e in d['y_events']:
@@ -156,6 +171,8 @@ def build(d, presolve=None):
     m.st(y >= np.array(d['g']) @ z + np.array(d['hh']) @ x)
     m.st(y >= np.array(d['g2']) @ z + np.array(d['hh2']) @ x)
     m.st(x >= -3, x <= 3, y <= 50)
+    if wv is not None:
+        m.st(wv >= np.array(d['w']['gw']) @ z + 1, wv <= np.array(d['w']['gw']) @ z + 2)
     if d.get('pwcon'):
         pw = d['pwcon']
         m.st((rso.maxof(y - pw['a1'], np.array(pw['g3']) @ z + 0 * x[0] - pw['a2']) <= pw['cap']).forall(fs_wide))
